@@ -1,8 +1,10 @@
 From Coq Require Import Extraction ExtrOcamlBasic.
 From QV Require Import Model.NameWire Model.Reader Model.RdataLite Model.Server Spec.NameWireS Spec.NameRepr
-  Model.ZoneTree Model.Query Model.MsgWriter Model.QueryW Model.ServerW Spec.MsgWriterS Model.CatTree Model.ServerCat.
+  Model.ZoneTree Model.Query Model.MsgWriter Model.QueryW Model.ServerW Model.ServerWT Spec.MsgWriterS Model.CatTree Model.ServerCat.
+From QV Require Model.TsigMsg.
 Extraction Language OCaml.
-Separate Extraction handle_message_w handle_message name_key wire_labels lower_labels tsig_alg_len get16 alg_name_wire
+Separate Extraction handle_message_wt handle_message_w handle_message name_key wire_labels lower_labels tsig_alg_len get16 alg_name_wire
   parse_uncompressed_name spec_decode_name name_of
   zone_new zone_build req_simple answer_rec labels_of neg_ttl respond_w respond_plain decode_msg
-  tree_of_history flat_of_tree.
+  tree_of_history flat_of_tree
+  TsigMsg.read_tsig_try_from TsigMsg.verify TsigMsg.time_signed_of_unix tsig_alg_of.
